@@ -1,6 +1,7 @@
 package props
 
 import (
+	"bufio"
 	"bytes"
 	"fmt"
 	"reflect"
@@ -468,6 +469,53 @@ func TestC17(t *testing.T) {
 	if t.Failed() {
 		return
 	}
+	// ---------------- what the pool lets go of is let go: of n objects returned to a pool of size s at most s stay
+	// reachable through the pool (a finalizer tells); and a Return does not wait for the destination the returned
+	// object last wrote to
+	if shard, _ := shardInfo(); shard == 0 {
+		for _, kind := range poolKinds {
+			for _, size := range []int{0, 1, 3} {
+				r.Current(fmt.Sprintf("C17 %s(size %d): objects dropped by the pool become unreachable", kind, size))
+				dropped, control := c17Retention(kind, size, size+5)
+				r.Eval()
+				r.NonTrivial(av.Hash(fmt.Sprint("retention", kind, size)))
+				if control && dropped < 5 {
+					directFail(t, "C17", map[string]interface{}{"pool": kind, "size": size, "phase": "retention"},
+						"C17 %s(size %d): %d objects were obtained and all returned; after repeated garbage collections only %d of them have become unreachable - the pool keeps more than its %d alive",
+						kind, size, size+5, dropped, size)
+				}
+				if kind == "DecoderPool" {
+					continue
+				}
+				r.Current(fmt.Sprintf("C17 %s(size %d): Return of an object that last wrote through a buffered writer over a stalled destination", kind, size))
+				pool, _, nm := newPool(kind, size, true)
+				for i := 0; i <= size; i++ {
+					o := pool.Get()
+					sink := &stalledSink{release: make(chan struct{})}
+					bw := bufio.NewWriterSize(sink, 4096)
+					var werr error
+					switch x := o.(type) {
+					case *hessian.Encoder:
+						werr = x.WriteTo(bw, poolProbe)
+					case hessian.Serializer:
+						werr = x.WriteTo(bw, poolProbe)
+					}
+					_ = nm
+					msg := callNonBlocking("Return", func() { pool.Return(o) })
+					close(sink.release)
+					r.Eval()
+					if werr != nil {
+						harnessBug(t, "C17", "writing the probe into a buffer failed: %v", werr)
+					}
+					if msg != "" {
+						directFail(t, "C17", map[string]interface{}{"pool": kind, "size": size, "phase": "return-after-buffered-write"},
+							"C17 %s(size %d): Return of an object whose last message still sits in the caller's bufio.Writer (the destination behind it takes no data): %s", kind, size, msg)
+					}
+				}
+			}
+		}
+		r.Label("retention-by-finalizers; return-after-buffered-write")
+	}
 	// ---------------- burst: many goroutines Return to a full pool at the same moment
 	// (a Return that makes room and then sends unconditionally parks for good when
 	// another Return slips in between; nobody Gets during the burst)
@@ -692,4 +740,37 @@ func waitOrParked(done chan struct{}, what string) string {
 			stable = 0
 		}
 	}
+}
+
+// stalledSink: a destination that takes no data until released (a peer that does not read).
+type stalledSink struct{ release chan struct{} }
+
+func (s *stalledSink) Write(p []byte) (int, error) {
+	<-s.release
+	return len(p), nil
+}
+
+// c17Retention obtains n objects from a fresh pool, puts a finalizer on each, returns them all and reports how
+// many became unreachable. control: an object that never saw the pool was finalized in the same time (if not, the
+// collector was not given the chance and the count says nothing).
+func c17Retention(kind string, size, n int) (dropped int, control bool) {
+	pool, _, _ := newPool(kind, size, true)
+	var finalized, ctl int32
+	func() {
+		objs := make([]interface{}, n)
+		for i := range objs {
+			objs[i] = pool.Get()
+			runtime.SetFinalizer(objs[i], func(interface{}) { atomic.AddInt32(&finalized, 1) })
+		}
+		for _, o := range objs {
+			pool.Return(o)
+		}
+		runtime.SetFinalizer(hessian.NewEncoder(nil, nil), func(interface{}) { atomic.AddInt32(&ctl, 1) })
+	}()
+	for i := 0; i < 400 && (atomic.LoadInt32(&finalized) < int32(n-size) || atomic.LoadInt32(&ctl) == 0); i++ {
+		runtime.GC()
+		time.Sleep(5 * time.Millisecond)
+	}
+	runtime.KeepAlive(pool)
+	return int(atomic.LoadInt32(&finalized)), atomic.LoadInt32(&ctl) == 1
 }
